@@ -705,16 +705,8 @@ template <class Mesh> struct HistRun {
         if (any_bu_off(r)) { ow_struct.push_back("C12"); ow_props.push_back("C12"); }
     }
 
-    // width-boundary meshes (65535..65537 entities, thorough C06 only) exist for the file formats; kernel operations on them are not what
-    // is being explored and some are super-linear per call (reordering around an edge with tens of thousands of faces)
-    static bool is_huge(const R &r) { for (int k = 0; k < 4; ++k) if (r.m.n(k) > 20000) return true; return false; }
     void exec_op(const Op &q) {
         R &r = rep();
-        if (is_huge(r)) {
-            const std::string &kk = q.kind;
-            bool io_or_prop = kk == "ROUNDTRIP" || kk == "RESTART" || kk == "OBSERVE" || kk == "SET_POS" || kk == "USE" || kk == "P_REQUEST" || kk == "P_CREATE_PERSISTENT" || kk == "P_WRITE" || kk == "P_FILL" || kk == "P_DROP";
-            if (!io_or_prop) { st.add("probe_op_skipped_on_huge_mesh"); set_owners(kk, r); return; }
-        }
         const std::string &k = q.kind;
         set_owners(k, r);
         bool bu_off_before = any_bu_off(r);
